@@ -189,12 +189,20 @@ func runC06(c *Check) {
 	}
 	loops := []string{"HeaderSubmissionLoop", "DataSubmissionLoop", "AggregationLoop", "SyncLoop", "RetrieveLoop", "DAIncluderLoop", "HeaderStoreRetrieveLoop", "DataStoreRetrieveLoop"}
 	coveredSetters := map[ssa.Instruction]bool{}
+	coveredSites := map[ssa.Instruction]bool{} // call sites on the way from a worker loop to a setter call
+	loopRoots := map[*ssa.Function]bool{}
 	for _, l := range loops {
 		root := p.MustFunc(mgrM(l))
+		loopRoots[root] = true
 		g := BuildECFG(p, root, ExpandOpts{MaxDepth: 7})
 		c.NoteGraph(g)
 		for _, n := range g.Select(setter) {
 			coveredSetters[n.In] = true
+			for x := n.Ctx; x != nil; x = x.Parent {
+				if x.Site != nil {
+					coveredSites[x.Site.(ssa.Instruction)] = true
+				}
+			}
 			// the wrapper that called it and its caller
 			var chain []string
 			for x := n.Ctx; x != nil; x = x.Parent {
@@ -249,6 +257,50 @@ func runC06(c *Check) {
 						continue // dead or test-only wrapper
 					}
 					c.Bad("C06-R2", "uncovered watermark-setter in "+fnShort(fn), fnName(fn), p.InstrPos(in), "the watermark setter is reachable from code outside the worker loops", nil)
+				}
+			}
+		}
+	}
+
+	// census of the call chains: every function on a path from a worker loop to the setter is
+	// called only from call sites that lie on such a path (a wrapper of the setter called from
+	// anywhere else, e.g. at start-up, moves the watermark without an acceptance)
+	{
+		onPath := map[*ssa.Function]bool{}
+		for site := range coveredSites {
+			if cs, ok := site.(ssa.CallInstruction); ok {
+				if cal := cs.Common().StaticCallee(); cal != nil {
+					onPath[cal] = true
+				}
+			}
+		}
+		for _, fn := range p.Funcs {
+			for _, b := range fn.Blocks {
+				for _, in := range b.Instrs {
+					cs, ok := in.(ssa.CallInstruction)
+					if !ok {
+						continue
+					}
+					cal := cs.Common().StaticCallee()
+					if cal == nil || !onPath[cal] || loopRoots[cal] || coveredSites[in] {
+						continue
+					}
+					// a call of an instantiation's sibling is the same source call site
+					if isSubmitterFn(cal) || strings.Contains(fnName(cal), "$") {
+						continue
+					}
+					sets := false
+					for _, b2 := range cal.Blocks {
+						for _, in2 := range b2.Instrs {
+							if coveredSetters[in2] || coveredSites[in2] {
+								sets = true
+							}
+						}
+					}
+					if !sets {
+						continue
+					}
+					c.Bad("C06-R2", "uncovered watermark-setter path via "+fnShort(cal)+" in "+fnShort(fn), fnName(fn), p.InstrPos(in), fnShort(cal)+" moves the submission watermark and is called here, outside the submission loops' post-acceptance path: the watermark can pass heights the DA layer never accepted (they are never submitted)", nil)
 				}
 			}
 		}
